@@ -42,7 +42,7 @@ def handle (line : String) : String :=
   match ws.mapM tokOf with
   | none => "UNMODELLED"
   | some ts =>
-    match stmt (ts.length + 2) ts with
+    match stmt (2 * ts.length + 1) ts with   -- sufficient: theorem stmt_fuel_bound
     | some (s, []) => (if ok s then "1 " else "0 ") ++ showS s
     | _ => "FAIL"
 
